@@ -155,9 +155,5 @@ def WellFormedRange : List Str → Prop
   | [] => False
   | _ :: rs => ∀ x ∈ rs, x ≠ [] ∧ x ≠ star
 
-/-- Tags over subtag sequences: either the empty text, or no subtag is empty. -/
-def WellFormedTag (tag : List Str) : Prop :=
-  tag = emptyText ∨ (tag ≠ [] ∧ ∀ x ∈ tag, x ≠ [])
-
 end Spec
 end SoupVerif
